@@ -700,7 +700,10 @@ class ObjectMethod(DeserializationMethod):
                 error = ValidationError(errors or [], field_errors or {})
                 invalid_fields = self.post_init_modified
                 if field_errors:
-                    invalid_fields = invalid_fields | field_errors.keys()
+                    # field_errors is keyed by aliases, dependencies hold names
+                    invalid_fields = invalid_fields | {
+                        f.name for f in self.fields if f.alias in field_errors
+                    }
                 try:
                     validate(
                         ValidatorMock(self.constructor.cls, values),
